@@ -1,4 +1,5 @@
 import Blf.Queue
+import Blf.Queue32
 import Blf.Pipe
 import Blf.Gen.Monitors
 import Blf.Gen.Guards
@@ -15,7 +16,8 @@ The wait predicates: `Blf.Gen.Guards` holds the predicate of every `wait` call t
 function of the model state (mathematical integers; a cast to an unsigned type is a reduction modulo 2^width).  The
 `*_guard` theorems state that these are the guards of the models (`Queue.guard`, `UFile.guardRead`, `UFile.guardWrite`,
 `UFile.guardWriteCont`, and through `Pipe.up_guard*` the guards `Pipe`/`WPipe` step on) — for the object queue under the
-hypothesis that fewer than 2^32 objects are queued (the code casts `m_queue.size()` to `uint32_t`; outside the model).  A
+hypothesis that fewer than 2^32 objects are queued (the code casts `m_queue.size()` to `uint32_t`), and without any hypothesis
+against `Queue.guard32`, the guards of the machine with the code's 32-bit arithmetic (`queue_*_guard32`).  A
 rewrite of a predicate that keeps its meaning keeps these theorems provable (they are closed by case analysis and `omega`,
 not by syntactic identity); a change of meaning breaks them.  Dynamically the guards are exercised by the blocking and
 `demand` probes of the `qseq` / `useq` correspondence.
@@ -81,6 +83,16 @@ theorem queue_write_guard (s : Queue.State) (x : Nat) (h : s.queue.length < 4294
     Gen.queueGuard_write s = Queue.guard s (.write x) := by
   unfold Gen.queueGuard_write Queue.guard
   cases s.abort <;> guard_eq
+
+/-- the same two predicates against the machine with the code's `uint32_t` arithmetic (`Blf/Queue32.lean`, the one the driver
+    executes): no hypothesis on the number of queued objects — the translated cast *is* the reduction `guard32` applies -/
+theorem queue_write_guard32 (s : Queue.State) (x : Nat) : Gen.queueGuard_write s = Queue.guard32 s (.write x) := by
+  unfold Gen.queueGuard_write Queue.guard32 Queue.W
+  cases s.abort <;> guard_eq
+
+theorem queue_read_guard32 (s : Queue.State) : Gen.queueGuard_read s = Queue.guard32 s .read := by
+  unfold Gen.queueGuard_read Queue.guard32
+  cases s.abort <;> cases s.queue.isEmpty <;> guard_eq
 
 theorem ufile_read_guard (s : UFile.State) (n : Nat) : Gen.ufileGuard_read s (n : Int) = UFile.guardRead s n := by
   unfold Gen.ufileGuard_read UFile.guardRead
